@@ -26,12 +26,14 @@ PLAN = dict(
         quick=[det("rel", H, "cs-rel", 16, 340, 4, tso=True, time_cap=35),
                det("dbg", H, "cs-dbg", 16, 120, 4, tso=True, time_cap=25, args=["--no-soft0"]),
                det("rel-noenq", H, "cs-rel", 8, 200, 4, tso=True, time_cap=30, args=["--noenq"]),
+               det("rel-critical", H, "cs-rel", 8, 160, 4, tso=True, time_cap=30, args=["--crit"]),
                det("witness-oversubscribed", H, "cs-rel", 1, 10, 3, time_cap=15, args=["--witness"]),
                det("witness-allotment-assert", H, "cs-dbg", 1, 15, 4, time_cap=20, args=["--witness2"]),
                det("directed-execute-wait", H, "cs-rel", 2, 30, 6, tso=True, time_cap=20, args=["--witness3"])],
         thorough=[det("rel", H, "cs-rel", 16, 2600, 5, tso=True, time_cap=280),
                   det("dbg", H, "cs-dbg", 16, 700, 5, tso=True, time_cap=130, args=["--no-soft0"]),
                   det("rel-noenq", H, "cs-rel", 16, 2000, 5, tso=True, time_cap=200, args=["--noenq"]),
+                  det("rel-critical", H, "cs-rel", 16, 1500, 5, tso=True, time_cap=160, args=["--crit"]),
                   det("witness-oversubscribed", H, "cs-rel", 1, 10, 3, time_cap=15, args=["--witness"]),
                   det("witness-allotment-assert", H, "cs-dbg", 1, 15, 4, time_cap=20, args=["--witness2"]),
                   det("directed-execute-wait", H, "cs-rel", 2, 30, 6, tso=True, time_cap=20, args=["--witness3"]),
@@ -41,7 +43,7 @@ PLAN = dict(
 )
 TEXT = dict(
     technique="property-based testing: generated arena/isolation/global_control programs x generated schedules over the real runtime (controlled scheduler, SC+TSO) "
-              "against slot, concurrency, isolation-tag, observer-balance, worker-budget and quiescent-allotment oracles",
+              "against slot, concurrency, isolation-tag (incl. critical tasks of prioritised flow-graph nodes), observer-balance, worker-budget and quiescent-allotment oracles",
     level_text="Exploration: every user body samples this_task_arena::current_thread_index() and is checked against the arena's max_concurrency (only the documented extra "
                "worker may sit above it), the reserved range (never a worker that joined through the market), pairwise distinctness among threads that are inside bodies "
                "of that arena, the number of library-created threads simultaneously inside bodies versus the largest max_allowed_parallelism in force since the last "
